@@ -37,29 +37,32 @@ TrRegister ==
            dok  == DrawOK(e, 1, "Salt", 32) /\ Len(e.draws) = 1
            salt == IF dok THEN e.draws[1].used ELSE IF ImplPanic(e) THEN Zeros(32) ELSE e.res.salt
        IN /\ Register(e.o, e.user, e.pass, salt)
-          /\ Done(<< TotalTag(e), KindTag(e),
+          /\ DoneK(<< TotalTag(e), KindTag(e),
                      <<"C15.draw.Salt", dok>>,
                      <<"C15.used.Salt", ~ImplPanic(e) => e.res.salt = salt>>,
                      <<"C03.v", ~ImplPanic(e) => e.res.v = out'.v>>,
-                     <<"C13.text", ~ImplPanic(e) => e.res.U = out'.U>> >>, {"Register"})
+                     <<"C13.text", ~ImplPanic(e) => e.res.U = out'.U>> >>, {"Register"},
+                  ImplPanic(e))
     /\ UNCHANGED <<seen, acc>>
 
 TrImport ==
     /\ IsEv("Import")
     /\ LET e == E
        IN /\ Import(e.o, e.user, e.v, e.salt)
-          /\ Done(<< TotalTag(e), <<"C15.nodraw", NoDraws(e)>>,
+          /\ DoneK(<< TotalTag(e), <<"C15.nodraw", NoDraws(e)>>,
                      <<"C01.roundTrip", ~ImplPanic(e) =>
-                          (e.res.U = out'.U /\ e.res.v = out'.v /\ e.res.salt = out'.salt)>> >>, {"Import"})
+                          (e.res.U = out'.U /\ e.res.v = out'.v /\ e.res.salt = out'.salt)>> >>, {"Import"},
+                  ImplPanic(e))
     /\ UNCHANGED <<seen, acc>>
 
 TrExport ==
     /\ IsEv("Export")
     /\ LET e == E
        IN /\ Export(e.o)
-          /\ Done(<< TotalTag(e), <<"C15.nodraw", NoDraws(e)>>,
+          /\ DoneK(<< TotalTag(e), <<"C15.nodraw", NoDraws(e)>>,
                      <<"C01.roundTrip", ~ImplPanic(e) =>
-                          (e.res.U = out'.U /\ e.res.v = out'.v /\ e.res.salt = out'.salt)>> >>, {"Export"})
+                          (e.res.U = out'.U /\ e.res.v = out'.v /\ e.res.salt = out'.salt)>> >>, {"Export"},
+                  ImplPanic(e))
     /\ UNCHANGED <<seen, acc>>
 
 TrIntoProof ==
@@ -68,13 +71,14 @@ TrIntoProof ==
            dok == DrawOK(e, 1, "PrivateKey", 32) /\ Len(e.draws) = 1
        IN IF dok
           THEN /\ IntoProof(e.o, e.o2, e.draws[1].used)
-               /\ Done(<< TotalTag(e), KindTag(e),
+               /\ DoneK(<< TotalTag(e), KindTag(e),
                           <<"C03.B", e.res.kind = "ok" => (out'.kind = "ok" /\ e.res.B = out'.B)>>,
                           <<"C04.ownB", (e.res.kind = "ok") = (out'.kind = "ok")>>,
                           <<"C01.roundTrip", e.res.kind = "ok" => (out'.kind = "ok" /\ e.res.salt = out'.salt)>> >>,
-                       {"IntoProof"} \cup (IF e.draws[1].raw # e.draws[1].used THEN {"IntoProof.injected"} ELSE {}))
+                       {"IntoProof"} \cup (IF e.draws[1].raw # e.draws[1].used THEN {"IntoProof.injected"} ELSE {}),
+                  e.res.kind # out'.kind)
           ELSE /\ UNCHANGED <<obj, out>>
-               /\ Done(<< <<"C15.draw.PrivateKey", FALSE>> >>, {"IntoProof"})
+               /\ DoneK(<< <<"C15.draw.PrivateKey", FALSE>> >>, {"IntoProof"}, TRUE)
     /\ UNCHANGED <<seen, acc>>
 
 TrPubKey ==
@@ -90,13 +94,30 @@ TrPubKey ==
                   {"PubKey"} \cup (IF valid THEN {} ELSE {"PubKey.invalid"}))
     /\ UNCHANGED <<seen, acc>>
 
+\* exhaustive sweep of the 2^bits arrays whose bytes are each 0 or N's byte: exactly 0 and N are refused
+TrPubKeySweep ==
+    /\ IsEv("PubKeySweep")
+    /\ LET e == E
+           total == IF e.bits = 32 THEN <<65535, 65534>>            \* 2^32 - 2 as <<hi, lo>> 16-bit halves
+                    ELSE <<(2 ^ (e.bits - 16)) - 1, 65534>>          \* 2^bits - 2
+           masks == {e.refused[k].mask : k \in 1..Len(e.refused)}
+       IN /\ UNCHANGED <<obj, out>>
+          /\ DonePure(<< <<"C14.total", e.panicked = 0>>,
+                         <<"C04.sweepRefused", masks = {<<0, 0, 0, 0>>, <<255, 255, 255, 255>>} /\ Len(e.refused) = 2>>,
+                         <<"C04.sweepKinds", \A k \in 1..Len(e.refused) :
+                              e.refused[k].kind = (IF e.refused[k].mask = <<0, 0, 0, 0>> THEN "zero" ELSE "modN")>>,
+                         <<"C04.sweepAccepted", e.accepted = total>>,
+                         <<"C04.unchanged", e.changed = 0>> >>,
+                      {"PubKeySweep", "PubKeySweep.bits" \o ToString(e.bits)})
+    /\ UNCHANGED <<seen, acc>>
+
 TrClientNew ==
     /\ IsEv("ClientNew")
     /\ LET e == E
            dok == DrawOK(e, 1, "PrivateKey", 32) /\ Len(e.draws) = 1
        IN IF dok
           THEN /\ ClientNew(e.o, e.user, e.pass, e.g, e.N, e.B, e.salt, e.draws[1].used)
-               /\ Done(<< TotalTag(e), KindTag(e),
+               /\ DoneK(<< TotalTag(e), KindTag(e),
                           <<"C03.A", e.res.kind = "ok" => (out'.kind = "ok" /\ e.res.A = out'.A)>>,
                           <<"C03.M1", e.res.kind = "ok" => (out'.kind = "ok" /\ e.res.M1 = out'.M1)>>,
                           <<"C04.ownA", (e.res.kind = "ok") = (out'.kind = "ok")>> >>,
@@ -104,9 +125,10 @@ TrClientNew ==
                        \cup (IF e.N # SrvN \/ e.g # SrvG THEN {"ClientNew.announcedGroup"} ELSE {})
                        \cup (IF out'.kind = "ok" /\ out'.A[32] = 0 THEN {"class.A.zeroPadded"} ELSE {})
                        \cup (IF BnCmp(e.B, BnMul(K3, Verifier(e.g, e.N, Text(e.user), Text(e.pass), e.salt))) < 0
-                             THEN {"class.BminusKv.negative"} ELSE {"class.BminusKv.nonneg"}))
+                             THEN {"class.BminusKv.negative"} ELSE {"class.BminusKv.nonneg"}),
+                  e.res.kind # out'.kind)
           ELSE /\ UNCHANGED <<obj, out>>
-               /\ Done(<< <<"C15.draw.PrivateKey", FALSE>> >>, {"ClientNew"})
+               /\ DoneK(<< <<"C15.draw.PrivateKey", FALSE>> >>, {"ClientNew"}, TRUE)
     /\ UNCHANGED <<seen, acc>>
 
 \* classes of the shared secret reached by an honest exchange (evidence, measured by TLC)
@@ -130,7 +152,7 @@ TrIntoServer ==
            p == obj[e.o]
        IN /\ IntoServer(e.o, e.o2, e.A, e.M1, chal)
           /\ seen' = IF out'.kind = "ok" THEN seen \cup {chal} ELSE seen
-          /\ Done(<< TotalTag(e),
+          /\ DoneK(<< TotalTag(e),
                      <<"C01.srvAccept", out'.kind = "ok" => ok>>,
                      <<"C01.specHonest", Hon(e) => out'.kind = "ok">>,
                      <<"C02.srvIff", ok => out'.kind = "ok">>,
@@ -143,7 +165,8 @@ TrIntoServer ==
                      <<"C15.used.ReconnectData", (ok /\ dok) => e.res.chal = chal>>,
                      <<"C05.fresh", (ok /\ out'.kind = "ok") => chal \notin seen>> >>,
                   {"IntoServer"} \cup (IF out'.kind = "ok" THEN {"IntoServer.accept"} \cup SClasses(p, e.A)
-                                       ELSE {"IntoServer.reject"}))
+                                       ELSE {"IntoServer.reject"}),
+                  e.res.kind # out'.kind)
     /\ UNCHANGED acc
 
 TrVerifyServerProof ==
@@ -151,7 +174,7 @@ TrVerifyServerProof ==
     /\ LET e == E
            ok == e.res.kind = "ok"
        IN /\ VerifyServerProof(e.o, e.o2, e.M2)
-          /\ Done(<< TotalTag(e), <<"C15.nodraw", NoDraws(e)>>,
+          /\ DoneK(<< TotalTag(e), <<"C15.nodraw", NoDraws(e)>>,
                      <<"C01.cliAccept", out'.kind = "ok" => ok>>,
                      <<"C01.specHonest", Hon(e) => out'.kind = "ok">>,
                      <<"C02.cliIff", ok => out'.kind = "ok">>,
@@ -160,7 +183,8 @@ TrVerifyServerProof ==
                           (e.res.client = out'.client /\ e.res.server = e.M2)>>,
                      <<"C03.K", (ok /\ out'.kind = "ok") => e.res.K = out'.K>> >>,
                   {"VerifyServerProof"} \cup (IF out'.kind = "ok" THEN {"VerifyServerProof.accept"}
-                                              ELSE {"VerifyServerProof.reject"}))
+                                              ELSE {"VerifyServerProof.reject"}),
+                  e.res.kind # out'.kind)
     /\ UNCHANGED <<seen, acc>>
 
 TrSessionKey ==
@@ -199,11 +223,12 @@ TrReconnectValues ==
            cchal == IF dok THEN e.draws[1].used ELSE IF ImplPanic(e) THEN Zeros(16) ELSE e.res.cchal
        IN /\ ReconnectValues(e.o, e.schal, cchal)
           /\ seen' = seen \cup {cchal}
-          /\ Done(<< TotalTag(e),
+          /\ DoneK(<< TotalTag(e),
                      <<"C15.draw.ReconnectData", dok>>,
                      <<"C15.used.ReconnectData", ~ImplPanic(e) => e.res.cchal = cchal>>,
                      <<"C05.clientFresh", cchal \notin seen>>,
-                     <<"C05.proofValue", ~ImplPanic(e) => e.res.proof = out'.proof>> >>, {"ReconnectValues"})
+                     <<"C05.proofValue", ~ImplPanic(e) => e.res.proof = out'.proof>> >>, {"ReconnectValues"},
+                  ImplPanic(e))
     /\ UNCHANGED acc
 
 TrVerifyReconnect ==
@@ -215,7 +240,7 @@ TrVerifyReconnect ==
        IN /\ VerifyReconnect(e.o, e.cdata, e.proof, newchal)
           /\ seen' = seen \cup {newchal}
           /\ acc' = IF out'.ok THEN acc \cup {triple} ELSE acc
-          /\ Done(<< TotalTag(e),
+          /\ DoneK(<< TotalTag(e),
                      <<"C05.iff", ~ImplPanic(e) => e.res.ok = out'.ok>>,
                      <<"C05.offered", ~ImplPanic(e) => e.res.chalBefore = out'.chalBefore>>,
                      <<"C05.refreshed", ~ImplPanic(e) =>
@@ -225,7 +250,8 @@ TrVerifyReconnect ==
                      <<"C05.legit", e.note = "good" => out'.ok>>,
                      <<"C15.draw.ReconnectRefresh", dok>> >>,
                   {"VerifyReconnect", "Reconnect." \o e.note}
-                  \cup (IF out'.ok THEN {"Reconnect.accepted"} ELSE {"Reconnect.rejected"}))
+                  \cup (IF out'.ok THEN {"Reconnect.accepted"} ELSE {"Reconnect.rejected"}),
+                  ImplPanic(e))
 
 TrInterleave ==
     /\ IsEv("Interleave")
@@ -239,7 +265,7 @@ TrInterleave ==
 
 Next ==
     \/ TrReset \/ SkipBad(tvars)
-    \/ TrRegister \/ TrImport \/ TrExport \/ TrIntoProof \/ TrPubKey \/ TrClientNew
+    \/ TrPubKeySweep \/ TrRegister \/ TrImport \/ TrExport \/ TrIntoProof \/ TrPubKey \/ TrClientNew
     \/ TrIntoServer \/ TrVerifyServerProof \/ TrSessionKey \/ TrAgree \/ TrClone \/ TrDrop
     \/ TrReconnectValues \/ TrVerifyReconnect \/ TrInterleave
 
